@@ -54,9 +54,14 @@ Fixpoint set_nth {A} (l : list A) (n : nat) (a : A) : list A :=
   | _ :: r, O => a :: r
   | x :: r, S n' => x :: set_nth r n' a
   end.
-(* `lambda_def.name = Some(ident)` when the assigned value is a lambda *)
+(* `if lambda_def.name.is_none() { lambda_def.name = Some(ident) }` when the assigned value is
+   a lambda: a function keeps the first name it was bound to (repo commit 86bf597; before it
+   the name was overwritten unconditionally, see known/C03.json F6) *)
 Definition name_if_lambda (st : store) (v : value) (x : string) : store :=
-  match v with VLam id _ _ _ => set_nth st id (Some x) | _ => st end.
+  match v with
+  | VLam id _ _ _ => match lam_name st id with None => set_nth st id (Some x) | Some _ => st end
+  | _ => st
+  end.
 Definition fresh_lambda (st : store) (args : list lamarg) (body : expr) (scope : frame)
   : value * store :=
   (VLam (Datatypes.length st) args body scope, (st ++ [None])%list).
